@@ -407,14 +407,12 @@ func (w *vxC07World) record() {
 	if enabled {
 		vx.Reach("recorded")
 		w.mem = append(w.mem, k)
-		size := int(w.conf.MemSize)
-		if w.conf.FileEnabled {
-			if len(w.mem) >= size {
-				vx.Reach("auto-flush")
-				vx.Assert(vx.Goroutines() == g0+1, "a full buffer starts a flush")
-				w.refFlush()
-			}
-		} else if len(w.mem) > max(size, 1) {
+		if vx.Goroutines() > g0 {
+			// Add has started a flush of the buffer to the file
+			vx.Reach("auto-flush")
+			vx.Assert(w.conf.FileEnabled, "nothing is written to files when they are disabled")
+			w.refFlush()
+		} else if !w.conf.FileEnabled && len(w.mem) > max(int(w.conf.MemSize), 1) {
 			// memory-only log: the ring buffer keeps the newest MemSize records
 			w.mem = w.mem[1:]
 		}
